@@ -38,6 +38,7 @@ def check(m, run):
     n0 = len(run.obs)
     _sd.fit3(m, run)
     _sd.is2(m, run)
+    _sd.ic2(m, run)
     fit_ok = all(o.ok for o in run.obs[n0:])
     if fit_ok:
         # FIT3 has decided that compute_params_surface returns (parameters along u, parameters along v): the direction tags of its result
